@@ -418,6 +418,25 @@ func FamClosures[T any](c Codec[T], stream bool, chunk int, seed int64, n int) S
 			rec.Notes = append(rec.Notes, fmt.Sprintf("CLOSURES-REMAIN tag=%d count=%d after the call returned", tag, n))
 		}
 	}
+	// a later argument cannot be encoded: the call fails before anything is written, and the closure that
+	// was registered for the earlier argument must be gone again
+	{
+		err := p.ra.CbFirst(ctx, 491, func(ctx context.Context, x int) (int, error) { return x, nil }, make(chan int))
+		cl := SysCall{Tag: 491, From: "A", Method: "CbFirstUnencodable", Err: errText(err), Done: true, Extra: fmt.Sprint(p.a.Reg.VerifClosureCount())}
+		rec.Calls = append(rec.Calls, cl)
+		if err != nil {
+			// the marshal failure is fatal for the link (a panic inside the stub): relink for the rest
+			p.close()
+			p2, err2 := newPair(c, stream, chunk, seed+1)
+			if err2 != nil {
+				rec.Notes = append(rec.Notes, "relink failed: "+err2.Error())
+				return rec
+			}
+			w0 := p.w
+			p = p2
+			_ = w0
+		}
+	}
 	// late invocation: the callee keeps the callable and invokes it after the call returned
 	ran := false
 	err = p.ra.Keep(ctx, 499, func(ctx context.Context, x int) (int, error) { ran = true; return x, nil })
